@@ -1966,6 +1966,23 @@ class MindsDBParser(Parser):
     def empty(self, p):
         pass
 
+    def _can_take(self, token_name):
+        # replay the pending reductions for this look-ahead on a copy of the state stack
+        actions, goto = self._lrtable.lr_action, self._lrtable.lr_goto
+        defaulted, prods = self._lrtable.defaulted_states, self._grammar.Productions
+        stack = list(self.statestack)
+        while True:
+            state = stack[-1]
+            t = defaulted[state] if state in defaulted else actions[state].get(token_name)
+            if t is None:
+                return False
+            if t >= 0:
+                return True
+            prod = prods[-t]
+            if prod.len:
+                del stack[-prod.len:]
+            stack.append(goto[stack[-1]][prod.name])
+
     def error(self, p, expected_tokens=None):
 
         if not hasattr(self, 'used_tokens'):
@@ -1974,6 +1991,10 @@ class MindsDBParser(Parser):
                 raise ParsingException(f"Syntax error at token {p.type}: \"{p.value}\"")
             else:
                 raise ParsingException("Syntax error at EOF")
+
+        # the keys of the action row also contain LALR look-aheads of reductions after which the
+        # token is not accepted: keep only the tokens the parser can really take from the current stack
+        expected_tokens = [name for name in expected_tokens or [] if self._can_take(name)]
 
         # save error info for future usage
         self.error_info = dict(
